@@ -31,7 +31,7 @@ CHECKS = {
         technique="contract-based deductive verification (AST symbolic execution -> z3 VCs, loop invariants) + exhaustive ground evaluation of tables",
     ),
     "C17": dict(
-        category="proof",
+        category="other",
         text="_select_format_module is verified for an arbitrary registry (any number of modules, patterns and operations; loop invariant 'no earlier module qualifies') and, for an explicit format, on the real registry: result determined by base name and fmt, explicit format wins without consulting patterns, FileFormatError otherwise, no file-system access. Registry order, patterns, operations, the CLI description and all declared attribute names of the 25 modules are decided by exhaustive evaluation; guaranteed attributes by a must-define analysis where the returned dict is a literal, otherwise only by the bounded corpus check (open known finding: orcalog on a non-ORCA *.out file).",
         design_ref="DESIGN.md 6/C17",
         note=TRUST + "; fnmatch/basename pure; S4 (guaranteed attributes) only partly decidable statically; S5 is C08",
@@ -115,21 +115,21 @@ CHECKS = {
         technique="contract-based deductive verification of the correction cascade (AST symbolic execution -> z3, callees under contract) + bounded norm-test and vendor-encoding probes with an independent orbital evaluator",
     ),
     "C06": dict(
-        category="proof",
+        category="other",
         text="The real 1-D kernel is run on sympy symbols for all 64 (n1,n2)<=7 and equals the Gaussian moment as an exact polynomial identity (all real centres/exponents); normalisation constants for all 120 Cartesian triples l<=7 and the Cartesian-to-pure tables tfs[0..7] are decided exhaustively against the definitions of docs/basis.rst (solid harmonics rebuilt from the associated-Legendre definition, independent of tools/harmonics.py); error contract, segmentation prologue, convention epilogue (reverse=True on rows by basis 0 and columns by basis 1) and the screening bound (z3 lemma) of compute_overlap are structural obligations. The assembled floating-point matrix (symmetry, PSD, transpose, translation, conventions, equality with the inner products) is a bounded stand-in against an independent oracle.",
         design_ref="DESIGN.md 6/C06",
         note="trusted: sympy normal forms, the documentation's definitions, C10/C14 contracts; float accumulation only bounded; the structural obligations of compute_overlap report `undecided` on refactoring",
         technique="direct symbolic execution of the real kernel (sympy), exhaustive evaluation of tables against documented definitions, z3 lemma, bounded independent oracle for the assembled matrix",
     ),
     "C07": dict(
-        category="proof",
+        category="other",
         text="The format-level readers and the IOData constructor are havoc'ed (any result, any subclass of Exception, for every possible file content at once) and the real load_one / load_many / warning re-issuer / LineIterator / error classes are executed symbolically: only FileFormatError (before the file is opened) or LoadError escapes, the message names the file and the iterator's line number, the file is closed on every exit path incl. generator close, LineIterator keeps lineno == lines taken - pushed back. Termination: one `decreases` obligation per parser loop over the ghost measure lines-left + push-back depth, discharged by path enumeration; nine loops carry a declared, unproved argument (listed in the evidence). Corpus truncation/mutation is a bounded cross-check only.",
         design_ref="DESIGN.md 6/C07",
         note=TRUST + "; default warning filters; BaseExceptions other than GeneratorExit out of scope; GC-time close of dropped generators; nine declared termination arguments",
         technique="contract-based deductive verification: exception-flow/resource contracts by AST symbolic execution with havoc'ed callees, data-structure invariant of LineIterator, termination measure per loop; bounded corpus mutation as cross-check",
     ),
     "C08": dict(
-        category="proof",
+        category="other",
         text="The real bodies of dump_one, dump_many (incl. the nested checking_iterator), write_input, _check_required and the warning re-issuer are executed symbolically with all format-level callees havoc'ed (they may raise any subclass of Exception at any call, every write may fail), for each of the 13 dump_one and 4 dump_many modules with their real `required` lists: escaping exception classes, PrepareDumpError/FileFormatError before any open event, DumpError/WriteInputError after it, close on every path, first-frame pre-flight and lazy one-pull-per-frame order of dump_many are proved for all inputs and all fault positions.",
         design_ref="DESIGN.md 6/C08",
         note=TRUST + "; BaseExceptions out of scope; format-level prepare_dump functions only by frame (no file event) here, their rejection logic is covered by C14/C01 and by the bounded driver",
